@@ -299,11 +299,16 @@ impl GM {
 
 /* ---------- value generation ---------- */
 
-const TEXT_ATOMS: [&str; 12] = ["a", "Z", "0", ".", "-", ";", "é", "ß", "€", "世", "𝄞", " "];
+// (byte-order mark, NUL, DEL, a noncharacter, a combining mark, a right-to-left mark, line ends: all well-formed UTF-8)
+const TEXT_ATOMS: [&str; 22] = ["a", "Z", "0", ".", "-", ";", "é", "ß", "€", "世", "𝄞", " ", "\u{feff}", "\0", "\u{7f}", "\u{ffff}", "\u{301}", "\u{200f}", "\r\n", "\t", "\u{fffd}", "\u{10ffff}"];
 
 pub fn text(r: &mut Rng, nbytes: usize) -> String {
     // exactly nbytes octets of well-formed UTF-8
     let mut s = String::new();
+    // now and then the text starts with a byte-order mark (it is text like any other)
+    if nbytes >= 3 && r.chance(1, 12) {
+        s.push('\u{feff}');
+    }
     while s.len() < nbytes {
         let a = *r.pick(&TEXT_ATOMS);
         if s.len() + a.len() <= nbytes {
@@ -776,7 +781,17 @@ fn gen_c03(o: &mut Out, r: &mut Rng, d: &GDict, tier: &str) {
         let f = if i % 4 == 0 { m.encode(&mut None) } else { m.encode(&mut Some(r)) };
         o.case("wellformed");
         o.line(&format!("dec {}", hex(&f)));
+        // the same frame somewhere in the middle of a larger buffer, the reader positioned at its first octet (a
+        // capture record, a tag in front): where the frame starts in the reader is none of the decoder's business
+        if i % 3 == 1 {
+            o.line(&format!("decat {} {}", 1 + r.below(9), hex(&f)));
+        }
     }
+    big_cases(o, r, d, thorough, &|o: &mut Out, f: &[u8]| {
+        if !f.is_empty() {
+            o.line(&format!("dec {}", hex(f)));
+        }
+    });
     // nesting up to the limit and just beyond
     for depth in 1..40 {
         let inner = avp_of(r, d, d.by_type(T_U32)[0], 0, 0);
@@ -1006,6 +1021,80 @@ fn gen_c03(o: &mut Out, r: &mut Rng, d: &GDict, tier: &str) {
         fix_msg_len(&mut f);
         o.case("random");
         o.line(&format!("dec {}", hex(&f)));
+    }
+}
+
+/// messages beyond the everyday sizes: long text whose multi-octet characters straddle every power-of-two boundary,
+/// single AVPs above the transport's 1 MiB (the in-memory codec has no such limit), groups and messages with thousands of
+/// members. `probe` is called after the message has been built (the frame is passed for the decoding families).
+fn big_cases(o: &mut Out, r: &mut Rng, d: &GDict, thorough: bool, probe: &dyn Fn(&mut Out, &[u8])) {
+    let first = |ty: usize| d.defs.iter().find(|x| x.ty == ty && x.vendor.is_none()).or(d.by_type(ty).first().copied()).unwrap().clone();
+    let (utf8, ident, oct, grp, u32d) = (first(T_UTF8), first(T_IDENT), first(T_OCT), first(T_GROUPED), first(T_U32));
+    let emit = |o: &mut Out, r: &mut Rng, label: &str, m: &GM| {
+        o.case(label);
+        let f = m.encode(&mut None);
+        let count = m.avps.len() + m.avps.iter().map(|a| if let GV::Grp(ms) = &a.v { ms.len() } else { 0 }).sum::<usize>();
+        if count > 2000 {
+            // thousands of members: the message is obtained by decoding its frame (appending one by one is quadratic in
+            // the model's list representation)
+            o.line(&format!("decode {}", hex(&f)));
+        } else {
+            let mut ls = vec![];
+            m.ops(r, &mut ls);
+            o.lines(&ls);
+        }
+        probe(o, &f);
+    };
+    // text: a run of 2-, 3- or 4-octet characters behind 0..3 ASCII octets, cut to lengths around 4 KiB .. 64 KiB
+    for (ch, w) in [("é", 2usize), ("€", 3), ("𝄞", 4)] {
+        for lead in 0..w {
+            for around in [4096usize, 8192, 16384, 65536] {
+                let n = (around + 8 - lead) / w;
+                let s = format!("{}{}", "a".repeat(lead), ch.repeat(n));
+                for def in [&utf8, &ident] {
+                    let mut m = header(r);
+                    m.avps.push(GA { code: def.code, vendor: def.vendor, flags: 0x40, v: if def.ty == T_IDENT { GV::Ident(s.clone()) } else { GV::Utf8(s.clone()) } });
+                    emit(o, r, &format!("bigtext w={} lead={} around={}", w, lead, around), &m);
+                }
+            }
+        }
+    }
+    // one large AVP: around 64 KiB, just above 1 MiB, several MiB (thorough: close to the 24-bit limit)
+    let mut sizes = vec![65533usize, 65536, (1 << 20) - 8, (1 << 20) + 1, 3 << 20];
+    if thorough {
+        sizes.push((1 << 24) - 64);
+    }
+    for s in sizes {
+        o.case(&format!("bigavp {}", s));
+        o.line("new 272 4 0 1 2");
+        o.line("clear");
+        o.line(&format!("val octn {} 5a", s));
+        o.line(&format!("add_avp {} {} 0", oct.code, vend(oct.vendor)));
+        probe(o, &[]);
+    }
+    // many members: in one group, and at top level
+    for k in [1023usize, 1024, 1025, 5000, 65535, 65536, 70000] {
+        let _ = thorough;
+        let member = GA { code: u32d.code, vendor: u32d.vendor, flags: 0x40, v: GV::U32(7) };
+        let mut m = header(r);
+        m.avps.push(GA { code: grp.code, vendor: grp.vendor, flags: 0x40, v: GV::Grp(vec![member.clone(); k]) });
+        emit(o, r, &format!("manymembers group k={}", k), &m);
+        let mut m = header(r);
+        m.avps = vec![member.clone(); k];
+        emit(o, r, &format!("manymembers top k={}", k), &m);
+    }
+    // a group whose small members add up past 1 MiB
+    {
+        o.case("biggroup");
+        o.line("new 272 4 0 1 2");
+        o.line("clear");
+        o.line("grp_new");
+        for _ in 0..300 {
+            o.line("val octn 4096 41");
+            o.line(&format!("grp_add_avp {} {} 0", oct.code, vend(oct.vendor)));
+        }
+        o.line(&format!("add_avp {} {} 64", grp.code, vend(grp.vendor)));
+        probe(o, &[]);
     }
 }
 
@@ -1327,7 +1416,8 @@ fn gen_c05(o: &mut Out, r: &mut Rng, d: &GDict, tier: &str) {
         o.lines(&ls);
         let ks: Vec<usize> = if thorough || n <= 120 { (0..n).collect() } else { (0..40).map(|_| r.below(n as u64) as usize).collect() };
         for k in ks {
-            let end = if k % 2 == 0 { "f" } else { "a0" };
+            // an error, `Ok(0)`, or an `Interrupted` error (the call fails all the same: what was accepted stays accepted)
+            let end = ["f", "a0", "i"][k % 3];
             let pre = match (k, k % 3) {
                 (0, _) => String::new(),
                 (_, 0) => format!("a{},", k),
@@ -1825,6 +1915,36 @@ fn gen_c08(o: &mut Out, r: &mut Rng, d: &GDict, tier: &str, cuts: bool) {
                     o.line(&format!("serve {} {} {}", all_ok.join(","), rd, "-"));
                 }
             }
+            // large requests (beyond any buffer size a reader might special-case), the last AVP with 1..3 octets of padding:
+            // cuts around their end, delivered whole and in 8 KiB pieces
+            if ci == 0 {
+                for (bi, big) in [5001usize, 70002, 300003].iter().enumerate() {
+                    let mut m0 = header(r);
+                    m0.avps.push(GA { code: d.by_type(T_U32)[0].code, vendor: None, flags: 0x40, v: GV::U32(1) });
+                    m0.avps.push(GA { code: d.by_type(T_OCT)[0].code, vendor: None, flags: 0, v: GV::Oct(r.bytes(*big)) });
+                    let m1 = small_messages(r, d)[1].clone();
+                    let fr = [m0.encode(&mut None), m1.encode(&mut None)];
+                    let st: Vec<u8> = fr.concat();
+                    let ans: Vec<GM> = vec![small_messages(r, d)[1].clone(), small_messages(r, d)[2].clone()];
+                    let afl: Vec<String> = ans.iter().map(|a| a.encode(&mut None).len().to_string()).collect();
+                    let e0 = fr[0].len();
+                    for p in [e0 - 5, e0 - 4, e0 - 3, e0 - 2, e0 - 1, e0, e0 + 1, e0 / 2, 20, st.len() - 1, st.len()] {
+                        for pieces in [false, true] {
+                            o.case(&format!("serve readcut={} reqlens={},{} anslens={} big={}", p, fr[0].len(), fr[1].len(), afl.join(","), bi));
+                            o.line("mclear");
+                            for a in &ans {
+                                let mut ls = vec![];
+                                a.ops(r, &mut ls);
+                                o.lines(&ls);
+                                o.line("msave");
+                            }
+                            let head = &st[..p];
+                            let rd = if pieces { head.chunks(8192).map(|c| format!("d:{}", hex(c))).collect::<Vec<_>>().join(",") } else { format!("d:{}", hex(head)) };
+                            o.line(&format!("serve a0,a1 {},e -", rd));
+                        }
+                    }
+                }
+            }
             // every write-side failure offset q
             for q in 0..=total_ans {
                 for mode in 0..2 {
@@ -1854,7 +1974,7 @@ fn gen_c08(o: &mut Out, r: &mut Rng, d: &GDict, tier: &str, cuts: bool) {
                         }
                     }
                     let _ = left;
-                    wr.push(if q % 2 == 0 { "f".into() } else { "a0".into() });
+                    wr.push(["f", "a0", "i"][q % 3].into());
                     o.line(&format!("serve {} d:{} {}", all_ok.join(","), hex(&stream), wr.join(",")));
                 }
             }
@@ -1866,7 +1986,7 @@ fn gen_c08(o: &mut Out, r: &mut Rng, d: &GDict, tier: &str, cuts: bool) {
 
 fn gen_c10(o: &mut Out, r: &mut Rng, tier: &str) {
     let thorough = tier == "thorough";
-    let faults = ["malformed", "oversized", "short", "stall_midframe", "stall_handshake", "half_hello", "reset", "panic", "garbage_close", "hello_close", "plain_req_close"];
+    let faults = ["malformed", "oversized", "short", "stall_midframe", "stall_handshake", "half_hello", "reset", "panic", "garbage_close", "hello_close", "plain_req_close", "stall_announce_max"];
     let whens = ["before", "during", "after"];
     // the scenario table: fault kind x moment x listener kind; number of well-behaved clients and of faulty peers vary
     for tls in [0, 1] {
@@ -2108,6 +2228,52 @@ fn gen_reuse(o: &mut Out, r: &mut Rng, d: &GDict, tier: &str, uid: &mut u32) {
     }
 }
 
+/// back-pressure in both directions: the stream takes the next request only after the client has read the answers the peer
+/// has already sent (a peer that finishes its batch of answers before it reads on). Sender and reader must not wait for
+/// each other.
+fn gen_backpressure(o: &mut Out, r: &mut Rng, d: &GDict, tier: &str, uid: &mut u32) {
+    for k in 0..(if tier == "thorough" { 120 } else { 10 }) {
+        let n = 3 + (k % 3) as usize;
+        let mut ids: Vec<u32> = vec![];
+        while ids.len() < n {
+            let h = r.next() as u32;
+            if !ids.contains(&h) {
+                ids.push(h);
+            }
+        }
+        let lens: Vec<usize> = (0..n).map(|_| *r.pick(&[0usize, 5, 40, 300])).collect();
+        let sizes: Vec<usize> = lens.iter().map(|l| request_size(*l)).collect();
+        let total: usize = sizes.iter().sum();
+        let sends: Vec<String> = (0..n).map(|i| format!("{}:{}", ids[i], lens[i])).collect();
+        // the first n-1 requests go out freely and are answered in one burst; the last request finds no room until the
+        // client has read the whole burst
+        let first: usize = sizes[..n - 1].iter().sum();
+        let mut rd = vec![format!("w:{}", first)];
+        let mut ans = vec![];
+        let mut burst = 0;
+        for j in 0..n - 1 {
+            *uid += 1;
+            let f = answer_frame(r, d, ids[j], *uid);
+            burst += f.len();
+            rd.push(format!("d:{}", hex(&f)));
+            ans.push(format!("{}:{}", ids[j], *uid));
+        }
+        *uid += 1;
+        let f = answer_frame(r, d, ids[n - 1], *uid);
+        rd.push(format!("w:{}", total));
+        rd.push(format!("d:{}", hex(&f)));
+        ans.push(format!("{}:{}", ids[n - 1], *uid));
+        rd.push(if k % 2 == 0 { "e".into() } else { "s".to_string() });
+        let mut wr: Vec<String> = sizes[..n - 1].iter().map(|s| format!("a{}", s)).collect();
+        if k % 3 == 1 {
+            wr.push("a3".into());
+        }
+        wr.push(format!("r{}", burst));
+        o.case(&format!("client backpressure n={} expect=all silent={}", n, (k % 2 != 0) as u8));
+        o.line(&format!("cli {} {} {} {} -", sends.join(","), rd.join(","), wr.join(","), ans.join(",")));
+    }
+}
+
 fn gen_ctcp(o: &mut Out, r: &mut Rng, tier: &str, cuts: bool) {
     let thorough = tier == "thorough";
     let mut id = if cuts { 500 } else { 0 };
@@ -2252,6 +2418,11 @@ fn gen_c12(o: &mut Out, r: &mut Rng, d: &GDict, tier: &str) {
         // (6) the peer closes before anything was sent / while the first request is half written
         o.case(&format!("client early-close n={} expect=any silent=0", n));
         o.line(&format!("cli {} e - - 66", sends.join(",")));
+        // ... the application then tries to connect again, in vain, and sends: still no future that hangs
+        o.case(&format!("client reconnect-fails n={} expect=any silent=0", n));
+        o.line(&format!("cli {} w:{},e - - c69", sends.join(","), total));
+        o.case(&format!("client reconnect-fails-answered n={} expect=any silent=0", n));
+        o.line(&format!("cli {} w:{},d:{},e - {} c70", sends.join(","), total, hex(&frames[0]), ans[0]));
         o.case(&format!("client close-mid-write n={} expect=any silent=0", n));
         o.line(&format!("cli {} w:3,e a3,p,p,p,a2,p - 67", sends.join(",")));
         // (7) the write side fails in the k-th send (at its first octet, after one octet, or half way) while the
@@ -2316,18 +2487,20 @@ fn gen_c14(o: &mut Out, r: &mut Rng, tier: &str) {
     let names = ["A", "B", "C", "Twin", "Sess-Id", "名前 x"];
     let app_names = ["App A", "App B", "Base"];
     let cmd_names = ["Cmd-A", "Cmd-B", "CC"];
-    let rand_doc = |o: &mut Out, r: &mut Rng, mode: &str, codes: &[u32], vendors: &[Option<u32>]| {
-        o.line("doc_begin");
+    // a document (its lines without the closing `doc_end`); kept by the history so that the very same document can be
+    // supplied again later - the latest supply wins, also when its text was seen before
+    let rand_doc = |r: &mut Rng, codes: &[u32], vendors: &[Option<u32>]| -> Vec<String> {
+        let mut ls = vec!["doc_begin".to_string()];
         for _ in 0..1 + r.below(2) {
-            o.line(&format!("app {} {}", r.pick(&APPS), hexd(r.pick(&app_names).as_bytes())));
+            ls.push(format!("app {} {}", r.pick(&APPS), hexd(r.pick(&app_names).as_bytes())));
             for _ in 0..r.below(3) {
-                o.line(&format!("cmd {} {}", r.pick(&CMDS), hexd(r.pick(&cmd_names).as_bytes())));
+                ls.push(format!("cmd {} {}", r.pick(&CMDS), hexd(r.pick(&cmd_names).as_bytes())));
             }
             for _ in 0..r.below(5) {
-                { let n: &str = *r.pick(&names); let t: &str = *r.pick(&TYPE_SPELLINGS); o.line(&doc_avp_line(n, *r.pick(codes), *r.pick(vendors), *r.pick(&MUSTS), t)); }
+                { let n: &str = *r.pick(&names); let t: &str = *r.pick(&TYPE_SPELLINGS); ls.push(doc_avp_line(n, *r.pick(codes), *r.pick(vendors), *r.pick(&MUSTS), t)); }
             }
         }
-        o.line(&format!("doc_end {}", mode));
+        ls
     };
     let n_hist = if thorough { 20000 } else { 500 };
     for _ in 0..n_hist {
@@ -2349,16 +2522,31 @@ fn gen_c14(o: &mut Out, r: &mut Rng, tier: &str) {
         }
         let (codes, vendors) = (&codes[..], &vendors[..]);
         let steps = 1 + r.below(if thorough { 30 } else { 12 });
+        let mut docs: Vec<Vec<String>> = vec![];
         for _ in 0..steps {
-            match r.below(10) {
+            match r.below(12) {
                 0..=4 => {
                     let ty = r.below(17) as usize;
                     o.line(&format!("dadd {} {} {} {} {}", r.pick(codes), vend(*r.pick(vendors)), hexd(r.pick(&names).as_bytes()), ty_name(ty), r.below(2)));
                 }
-                5..=7 => rand_doc(o, r, "load", codes, vendors),
+                5..=7 => {
+                    let dl = rand_doc(r, codes, vendors);
+                    o.lines(&dl);
+                    o.line("doc_end load");
+                    docs.push(dl);
+                }
+                8 | 9 if !docs.is_empty() => {
+                    // an earlier document of this history once more, verbatim
+                    let dl = r.pick(&docs).clone();
+                    o.lines(&dl);
+                    o.line("doc_end load");
+                }
                 _ => {
                     for _ in 0..r.below(4) {
-                        rand_doc(o, r, "stash", codes, vendors);
+                        let dl = if !docs.is_empty() && r.chance(1, 4) { r.pick(&docs).clone() } else { rand_doc(r, codes, vendors) };
+                        o.lines(&dl);
+                        o.line("doc_end stash");
+                        docs.push(dl);
                     }
                     o.line("dconstruct");
                 }
@@ -2386,6 +2574,36 @@ fn gen_c14(o: &mut Out, r: &mut Rng, tier: &str) {
             for n in cmd_names {
                 o.line(&format!("dcmd {}", hexd(n.as_bytes())));
             }
+        }
+    }
+}
+
+/// dictionary objects are independent of each other: what is put into the library's process-wide default dictionary
+/// (or into any other object) is not in a dictionary built afterwards from the built-in document, and vice versa.
+/// Queries stay inside a reserved key / name universe that the built-in document does not touch, so the model needs no
+/// copy of that document (its `dbuiltin` is an empty dictionary).
+fn gen_dict_objects(o: &mut Out) {
+    o.case("objects");
+    o.line("dreset");
+    o.line(&format!("dadd 900001 424242 {} UTF8String 1", hexd(b"Leak-Local")));
+    o.line(&format!("gdadd 900002 424242 {} Unsigned32 1", hexd(b"Leak-Global")));
+    o.line(&format!("gdadd 900003 - {} OctetString 0", hexd(b"Leak-Global-2")));
+    for round in 0..2 {
+        o.line("dbuiltin");
+        for (c, v) in [(900001u32, "424242"), (900002, "424242"), (900003, "-"), (900004, "424242")] {
+            o.line(&format!("dget {} {}", c, v));
+        }
+        for n in ["Leak-Local", "Leak-Global", "Leak-Global-2", "Leak-Later"] {
+            o.line(&format!("dbyname {}", hexd(n.as_bytes())));
+        }
+        // a frame carrying one of them must not decode under the new object
+        let mut m = GM { version: 1, flags: 0x80, cmd: 272, app: 4, hbh: 1, e2e: 2, avps: vec![] };
+        m.avps.push(GA { code: 900002, vendor: Some(424242), flags: 0x40, v: GV::U32(10) });
+        o.line(&format!("dec {}", hex(&m.encode(&mut None))));
+        if round == 0 {
+            // ... and a definition added to this object does not show in the next one either
+            o.line(&format!("dadd 900004 424242 {} UTF8String 0", hexd(b"Leak-Later")));
+            o.line(&format!("gdadd 900004 424242 {} UTF8String 0", hexd(b"Leak-Later")));
         }
     }
 }
@@ -2591,9 +2809,9 @@ fn gen_c16(o: &mut Out, r: &mut Rng, tier: &str, extra: &[String]) {
             o.line("dump");
             let bogus = match k % 6 {
                 0 => String::new(),
-                1 => format!("{} ", names[k % names.len()]),
+                1 => { let n = &names[k % names.len()]; let ws = *r.pick(&[" ", "\t", "\n", "\r\n", "\u{a0}"]); if r.chance(1, 2) { format!("{}{}", n, ws) } else { format!("{}{}", ws, n) } }
                 2 => names[k % names.len()].to_lowercase() + "x",
-                3 => format!("No-Such-{}", r.below(100000)),
+                3 => if r.chance(1, 2) { format!("No-Such-{}", r.below(100000)) } else { r.pick(&["Origin-Host", "Session-Id", "User-Name", "Result-Code", "Origin-Realm", "CC-Request-Type", "Host-IP-Address"]).to_string() },
                 4 => names[k % names.len()][..names[k % names.len()].len().saturating_sub(1)].to_string(),
                 _ => { let n = 1 + r.below(12) as usize; text(r, n) }
             };
@@ -2613,6 +2831,12 @@ fn gen_c16(o: &mut Out, r: &mut Rng, tier: &str, extra: &[String]) {
                 o.line("enc");
                 o.line("len");
                 o.line("dump");
+                // ... and the AVP constructor itself refuses the name
+                let mut ls = vec![];
+                v.ops(r, &mut ls);
+                o.lines(&ls);
+                o.line(&format!("avp_name {}", hexd(bogus.as_bytes())));
+                o.line("clear");
             }
             // ... and the message still works afterwards
             let a = avp(r, d, 1, 2);
@@ -2814,6 +3038,7 @@ pub fn generate(family: &str, seed: u64, tier: &str, extra: &[String], w: &mut d
                 };
                 if i == 0 {
                     single_avp_sweep(&mut o, &mut r, d, &probes);
+                    big_cases(&mut o, &mut r, d, thorough, &|o: &mut Out, _f: &[u8]| o.line("rt"));
                 }
                 for _ in 0..per {
                     o.case("history");
@@ -2873,6 +3098,7 @@ pub fn generate(family: &str, seed: u64, tier: &str, extra: &[String], w: &mut d
             gen_c11(&mut o, &mut r, &d0, tier);
             let mut uid = 700000u32;
             gen_reuse(&mut o, &mut r, &d0, tier, &mut uid);
+            gen_backpressure(&mut o, &mut r, &d0, tier, &mut uid);
             gen_ctcp(&mut o, &mut r, tier, false);
         }
         "c12" => {
@@ -2880,11 +3106,15 @@ pub fn generate(family: &str, seed: u64, tier: &str, extra: &[String], w: &mut d
             gen_c12(&mut o, &mut r, &d0, tier);
             let mut uid = 800000u32;
             gen_reuse(&mut o, &mut r, &d0, tier, &mut uid);
+            gen_backpressure(&mut o, &mut r, &d0, tier, &mut uid);
             gen_ctcp(&mut o, &mut r, tier, true);
         }
         "c10" => gen_c10(&mut o, &mut r, tier),
         "c13" => gen_c13(&mut o, &mut r, tier),
-        "c14" => gen_c14(&mut o, &mut r, tier),
+        "c14" => {
+            gen_c14(&mut o, &mut r, tier);
+            gen_dict_objects(&mut o);
+        }
         "c15" => gen_c15(&mut o, &mut r, tier, extra),
         "c16" => gen_c16(&mut o, &mut r, tier, extra),
         "c05" => {
@@ -2892,8 +3122,46 @@ pub fn generate(family: &str, seed: u64, tier: &str, extra: &[String], w: &mut d
             gen_c05(&mut o, &mut r, &d0, tier);
         }
         "c04" => {
-            emit_dict(o.w, &d0);
+            // the shipped dictionaries underneath (what is displayed may depend on an AVP's name), dict0 on top of them
+            let mut shipped = GDict::default();
+            o.line("dreset");
+            if let Some(p) = extra.iter().find(|p| p.contains('+')) {
+                let (lines, d) = load_defs_file(p);
+                o.lines(&lines);
+                shipped = d;
+            }
+            for x in &d0.defs {
+                emit_dadd(o.w, x);
+            }
             gen_c04(&mut o, &mut r, &d0, tier);
+            // every numeric definition of the shipped dictionaries with runs of small values, the neighbourhoods of the
+            // powers of ten and of two, and the extremes: decoded, displayed, inspected, re-encoded
+            let overridden = |x: &GDef| d0.defs.iter().any(|y| y.code == x.code && y.vendor == x.vendor);
+            for def in shipped.defs.iter().filter(|x| !overridden(x) && matches!(x.ty, T_U32 | T_U64 | T_I32 | T_I64 | T_ENUM | T_F32 | T_F64 | T_TIME)) {
+                let mut vals: Vec<u64> = (0..=1280).collect();
+                for p in [10u64.pow(4), 10u64.pow(5), 10u64.pow(6), 10u64.pow(9), 10u64.pow(12), 10u64.pow(18), 1 << 16, 1 << 20, 1 << 30, 1 << 31, 1 << 32, 1 << 40, 1 << 62, 1 << 63] {
+                    vals.extend([p - 2, p - 1, p, p + 1, p + 24]);
+                }
+                vals.extend([u64::MAX, u64::MAX - 1, i64::MAX as u64, i64::MIN as u64, (i64::MIN + 1) as u64, u32::MAX as u64, i32::MIN as u32 as u64, i32::MAX as u64, (-1i64) as u64, (-1000i64) as u64, (-1023i64) as u64]);
+                for chunk in vals.chunks(128) {
+                    let mut m = header(&mut r);
+                    for &v in chunk {
+                        let gv = match def.ty {
+                            T_U32 => GV::U32(v as u32),
+                            T_U64 => GV::U64(v),
+                            T_I32 => GV::I32(v as i32),
+                            T_I64 => GV::I64(v as i64),
+                            T_ENUM => GV::Enum(v as i32),
+                            T_F32 => GV::F32(v as u32),
+                            T_F64 => GV::F64(v),
+                            _ => GV::Time((v as u32) as i64 - RFC868, 0),
+                        };
+                        m.avps.push(GA { code: def.code, vendor: def.vendor, flags: 0x40, v: gv });
+                    }
+                    o.case(&format!("shipped-values {} {}", def.code, vend(def.vendor)));
+                    o.line(&format!("decq {}", hex(&m.encode(&mut None))));
+                }
+            }
         }
         _ => {
             eprintln!("unknown family {}", family);
